@@ -123,6 +123,9 @@ class HObj:
         return HObj(self.cls, dict(self.attrs), self.fresh)
 
 
+EMPTY_LIST_CANON = []      # canonical representatives of "an empty list / dict" as *values* (py_eq comparisons)
+EMPTY_DICT_CANON = {}
+
 _ids = itertools.count(1)
 
 
